@@ -151,6 +151,8 @@ def make_case(name, cfg, r, tier, with_history, export=True):
         H = 2
     if H > 6:
         H = 6
+    if real == "double" and data == "double" and r.random() < 0.06:
+        H = gen.pick_height_deep(r, D)       # leaf indices beyond 31 bits (deep, sparse)
     center, width = gen_box(r, D, real)
     if nrhs > 0 and len(set(width)) > 1:
         pass  # per-dimension widths are fine for the counting kernel
